@@ -172,6 +172,8 @@ func checkC20(p *Prog, r *Report) {
 
 	sliceEqualityLint(p, r, "R6")
 	writeBackIndexRule(p, r, "R7")
+	r.Rule("R8", "remove-all rebuilds the use-case information list keeping exactly the entries whose address differs from the entity's (retain truth table): every actor's entry of the entity goes, not just the first")
+	applyRetain(p, r, "R8", "model", "NodeManagementUseCaseDataType", "RemoveUseCaseDataForAddress", retainSpec{Field: "NodeManagementUseCaseDataType.UseCaseInformation", Required: map[string]string{"address": "=Address"}})
 	r.Rule("R3", "RemoveEntity removes all use cases of the removed entity, unconditionally")
 	dli := p.LookupIface("api", "DeviceLocalInterface")
 	for _, fn := range p.ImplsOf(dli, "RemoveEntity") {
